@@ -11,44 +11,192 @@ open Spydr.Verilog
 open Spydr.Verilog.Parse
 open Spydr.Verilog.Text (fixName)
 
-/-! ### the token level for modules with assigns -/
+/-! ### module parameters in the header: `#( parameter k = v , parameter k2 = v2 )` -/
+
+/-- the tokens after the first `parameter` -/
+def mpToks : Params → List String
+  | [] => []
+  | [kv] => [kv.1, "=", kv.2]
+  | kv :: rest => kv.1 :: "=" :: kv.2 :: "," :: "parameter" :: mpToks rest
+
+def mparamToks (ps : Params) : List String :=
+  if ps.isEmpty then [] else "#" :: "(" :: "parameter" :: (mpToks ps ++ [")"])
+
+/-- the keys are plain names (not `integer`, which the reader treats as a type), pairwise distinct -/
+def mparamsOK (ps : Params) : Bool :=
+  ps.all (fun kv => nameTokB kv.1 kv.1 && kv.1 != "integer") && decide ((ps.map (·.1)).Nodup)
+
+theorem mpToks_len : ∀ (a : Params), a.length ≤ (mpToks a).length
+  | [] => by simp [mpToks]
+  | [kv] => by simp [mpToks]
+  | kv :: kv2 :: t => by
+    have h2 := mpToks_len (kv2 :: t)
+    simp only [mpToks, List.length_cons] at h2 ⊢; omega
+
+theorem headerParamsGo_toks : ∀ (ps acc : Params) (f : Nat) (rest : Toks), ps ≠ [] → ps.length ≤ f →
+    (∀ kv ∈ ps, nameTokB kv.1 kv.1 = true ∧ kv.1 ≠ "integer") → ((acc ++ ps).map (·.1)).Nodup →
+    headerParamsGo f (mpToks ps ++ ")" :: rest) acc = .ok (acc ++ ps, rest) := by
+  intro ps
+  induction ps with
+  | nil => intro acc f rest h; exact absurd rfl h
+  | cons kv ps ih =>
+    intro acc f rest _ hf hok hn
+    cases f with
+    | zero => simp at hf
+    | succ f =>
+      obtain ⟨hk1, hk2⟩ := hok kv List.mem_cons_self
+      have hnt := nameTok_sound _ _ hk1
+      have hany : acc.any (fun x => x.1 == kv.1) = false := by
+        rw [List.any_eq_false]
+        intro x hx
+        simp only [beq_iff_eq]
+        intro e
+        rw [List.map_append, List.map_cons, List.nodup_append] at hn
+        exact hn.2.2 x.1 (List.mem_map_of_mem hx) kv.1 List.mem_cons_self e
+      obtain ⟨k, v⟩ := kv
+      have hbr : (k == "[") = false := hnt.res "[" (by decide)
+      have hkey : "" ++ k = k := String.empty_append
+      have hint' : (k == "integer") = false := by simpa using hk2
+      have hint : (("" ++ k) == "integer") = false := by rw [hkey]; exact hint'
+      cases ps with
+      | nil =>
+        simp only [mpToks, List.cons_append, List.nil_append]
+        unfold headerParamsGo
+        simp [expect, next, peek, bind, Except.bind, hnt.valid, hnt.strip, hbr, hint, hint', hkey, hany, pure, Except.pure]
+      | cons kv2 ps2 =>
+        have hrec := ih (acc ++ [(k, v)]) f rest (by simp) (by simpa using hf)
+          (fun x hx => hok x (List.mem_cons_of_mem _ hx)) (by simpa using hn)
+        simp only [mpToks, List.cons_append, List.nil_append, List.append_assoc]
+        unfold headerParamsGo
+        have e1 : ("," == ")") = false := by decide
+        have e2 : ("=" != "=") = false := by decide
+        simp only [expect, next, peek, bind, Except.bind, beq_self_eq_true, if_true, hnt.valid, Bool.not_true, Bool.false_eq_true,
+          if_false, hnt.strip, hbr, hint, hint', hkey, hany, pure, Except.pure, e1, e2]
+        rw [hrec]
+        simp
+
+theorem headerParams_toks (ps : Params) (rest : Toks) (hne : ps ≠ []) (hok : mparamsOK ps = true) :
+    headerParams (mparamToks ps ++ rest) = .ok (ps, rest) := by
+  simp only [mparamsOK, Bool.and_eq_true, List.all_eq_true, decide_eq_true_eq, bne_iff_ne, ne_eq] at hok
+  have hem : ps.isEmpty = false := by cases ps <;> simp at hne ⊢
+  have hgo := headerParamsGo_toks ps [] ((mpToks ps ++ ([")"] ++ rest)).length + 1) rest hne (by
+    have := mpToks_len ps
+    simp only [List.length_append]; omega) hok.1 (by simpa using hok.2)
+  unfold headerParams mparamToks
+  have e1 : ("parameter" == ")") = false := by decide
+  have e2 : ("parameter" != "parameter") = false := by decide
+  simp only [hem, Bool.false_eq_true, if_false, List.cons_append, List.append_assoc, expect, next, bind, Except.bind,
+    beq_self_eq_true, if_true, pure, Except.pure, e1, e2]
+  simp only [List.cons_append, List.nil_append] at hgo ⊢
+  exact hgo
+
+/-! ### the token level for modules with assigns and module parameters -/
 
 def WModA.sitems (m : WModA) : List SItem :=
   m.base.ports.map .port ++ m.base.wires.map .wire ++ m.asgs.map (fun a => SItem.asg a.1 a.2) ++ m.base.insts.map .inst
 
+/-- the tokens of a module: attributes, name, module parameters, header with bare names, body, `endmodule` -/
+def modToksP (attrs : Attrs) (name : String) (params : Params) (ports : List String) (items : List SItem) : List String :=
+  starToks attrs ++ "module" :: nameT name :: (mparamToks params ++
+    "(" :: (sepNames ports ++ ")" :: ";" :: (items.flatMap SItem.toks ++ ["endmodule"])))
+
+def modOKP (attrs : Attrs) (name : String) (params : Params) (ports : List String) (items : List SItem) : Bool :=
+  modOK attrs name ports items && mparamsOK params
+
+theorem modToksP_nil (attrs : Attrs) (name : String) (ports : List String) (items : List SItem) :
+    modToksP attrs name [] ports items = modToks attrs name ports items := by
+  simp [modToksP, modToks, mparamToks]
+
 /-- the token list of the text the writer prints for a module with assigns -/
-def tokensOfA (m : WModA) : List String := modToks m.base.attrs m.base.name (m.base.ports.map (·.name)) m.sitems
+def tokensOfA (m : WModA) : List String := modToksP m.base.attrs m.base.name m.params (m.base.ports.map (·.name)) m.sitems
 
 def tokOKA (m : WModA) : Bool :=
-  modOK m.base.attrs m.base.name (m.base.ports.map (·.name)) m.sitems && cleanToks (tokensOfA m)
+  modOKP m.base.attrs m.base.name m.params (m.base.ports.map (·.name)) m.sitems && cleanToks (tokensOfA m)
 
 theorem sitemsA_items (m : WModA) : m.sitems.map SItem.toItem = m.toModule.items := by
   simp [WModA.toModule, WModA.sitems, SItem.toItem, Function.comp_def]
 
-/-- a module (any list of body items of the fragment) anywhere at the top level of the file -/
-theorem topGo_mod (f : Nat) (attrs : Attrs) (name : String) (ports : List String) (items : List SItem) (rest : Toks)
-    (acc : List Module) (h : modOK attrs name ports items = true) :
-    topGo (f + 2) (modToks attrs name ports items ++ rest) false [] acc =
+theorem items_toks_len : ∀ (l : List SItem), (∀ it ∈ l, it.ok = true) → 2 * l.length ≤ (l.flatMap SItem.toks).length := by
+  intro l
+  induction l with
+  | nil => intro _; simp
+  | cons it l ih =>
+    intro hok
+    have h1 := ih (fun x hx => hok x (List.mem_cons_of_mem _ hx))
+    have h2 : 2 ≤ it.toks.length := by
+      unfold SItem.toks
+      have : 2 ≤ it.core.length := by
+        cases it with
+        | port p => simp [SItem.core, portCore]
+        | wire w => simp [SItem.core]
+        | inst i => simp [SItem.core, instCore]; omega
+        | asg l r => simp [SItem.core]; omega
+      simp only [List.length_append]; omega
+    simp only [List.flatMap_cons, List.length_append, List.length_cons]; omega
+
+theorem moduleP_toksP (attrs pend : Attrs) (name : String) (params : Params) (ports : List String) (items : List SItem)
+    (rest : Toks) (h : modOKP attrs name params ports items = true) :
+    moduleP false pend ("module" :: nameT name :: (mparamToks params ++
+      "(" :: (sepNames ports ++ ")" :: ";" :: (items.flatMap SItem.toks ++ "endmodule" :: rest)))) =
+      .ok (⟨name, false, pend, params, ports.map (fun a => (⟨a, none, none, none⟩ : HPort)), items.map SItem.toItem⟩, rest) := by
+  simp only [modOKP, Bool.and_eq_true] at h
+  obtain ⟨h0, hpar⟩ := h
+  by_cases hp : params = []
+  · subst hp
+    simp only [mparamToks, List.isEmpty_nil, if_true, List.nil_append]
+    exact moduleP_toks attrs pend name ports items rest h0
+  · have hpars := headerParams_toks params ("(" :: (sepNames ports ++ ")" :: ";" :: (items.flatMap SItem.toks ++ "endmodule" :: rest)))
+      hp hpar
+    have hem : params.isEmpty = false := by cases params <;> simp at hp ⊢
+    simp only [modOK, Bool.and_eq_true, List.all_eq_true] at h0
+    obtain ⟨⟨⟨_, h2⟩, h3⟩, h4⟩ := h0
+    have hn := nameTok_sound _ _ h2
+    have hhp := headerPortsGo_toks ports [] ((sepNames ports).length + ((items.flatMap SItem.toks ++ "endmodule" :: rest).length + 1 + 1) + 1)
+      (";" :: (items.flatMap SItem.toks ++ "endmodule" :: rest)) (by have := sepNames_len ports; omega) h3
+    have hbody := bodyGo_items items [] ((items.flatMap SItem.toks ++ "endmodule" :: rest).length + 1) rest (by
+      have := items_toks_len items h4
+      simp only [List.length_append, List.length_cons]; omega) h4
+    have htl : ∃ tl, mparamToks params ++ "(" :: (sepNames ports ++ ")" :: ";" :: (items.flatMap SItem.toks ++ "endmodule" :: rest)) =
+        "#" :: tl := by
+      unfold mparamToks; simp [hem]
+    obtain ⟨tl, htl'⟩ := htl
+    unfold moduleP header
+    rw [htl'] at hpars ⊢
+    simp only [expect, next, peek, bind, Except.bind, beq_self_eq_true, if_true, hn.valid, Bool.not_true, Bool.false_eq_true,
+      if_false, pure, Except.pure, hpars, List.length_append, List.length_cons]
+    simp only [List.nil_append, List.length_append, List.length_cons] at hhp
+    simp only [List.nil_append] at hbody
+    rw [hhp]
+    simp only [List.nil_append, beq_self_eq_true, if_true]
+    rw [hbody]
+    simp [hn.strip]
+
+/-- a module (any list of body items of the fragment, module parameters) anywhere at the top level of the file -/
+theorem topGo_mod (f : Nat) (attrs : Attrs) (name : String) (params : Params) (ports : List String) (items : List SItem)
+    (rest : Toks) (acc : List Module) (h : modOKP attrs name params ports items = true) :
+    topGo (f + 2) (modToksP attrs name params ports items ++ rest) false [] acc =
       topGo (if attrs = [] then f + 1 else f) rest false []
-        (acc ++ [⟨name, false, attrs, [], ports.map (fun a => (⟨a, none, none, none⟩ : HPort)), items.map SItem.toItem⟩]) := by
-  have hm := fun pend => moduleP_toks attrs pend name ports items rest h
-  have hmod : ∀ (g : Nat) (pend : Attrs), topGo (g + 1) ("module" :: nameT name :: "(" :: (sepNames ports ++ ")" :: ";" ::
-      (items.flatMap SItem.toks ++ "endmodule" :: rest))) false pend acc =
-      topGo g rest false [] (acc ++ [⟨name, false, pend, [], ports.map (fun a => (⟨a, none, none, none⟩ : HPort)),
+        (acc ++ [⟨name, false, attrs, params, ports.map (fun a => (⟨a, none, none, none⟩ : HPort)), items.map SItem.toItem⟩]) := by
+  have hm := fun pend => moduleP_toksP attrs pend name params ports items rest h
+  have hmod : ∀ (g : Nat) (pend : Attrs), topGo (g + 1) ("module" :: nameT name :: (mparamToks params ++ "(" :: (sepNames ports ++ ")" :: ";" ::
+      (items.flatMap SItem.toks ++ "endmodule" :: rest)))) false pend acc =
+      topGo g rest false [] (acc ++ [⟨name, false, pend, params, ports.map (fun a => (⟨a, none, none, none⟩ : HPort)),
         items.map SItem.toItem⟩]) := by
     intro g pend
     conv => lhs; unfold topGo
     simp only [fw_module.1, fw_module.2, Bool.false_eq_true, if_false, beq_self_eq_true, if_true, hm pend]
-  unfold modToks
+  have h0 : modOK attrs name ports items = true := by
+    simp only [modOKP, Bool.and_eq_true] at h; exact h.1
+  unfold modToksP
   by_cases ha : attrs = []
   · simp only [ha, starToks, List.isEmpty_nil, if_true, List.nil_append, List.cons_append, List.append_assoc]
     rw [hmod _ []]
   · have hok : attrsOK attrs = true := by
-      simp only [modOK, Bool.and_eq_true] at h; exact h.1.1.1
+      simp only [modOK, Bool.and_eq_true] at h0; exact h0.1.1.1
     have hnd : (attrs.map (·.1)).Nodup := by
       simp only [attrsOK, Bool.and_eq_true, decide_eq_true_eq] at hok; exact hok.2
-    have hs := star_toks attrs ("module" :: nameT name :: "(" :: (sepNames ports ++ ")" :: ";" ::
-      (items.flatMap SItem.toks ++ "endmodule" :: rest))) ha hok
+    have hs := star_toks attrs ("module" :: nameT name :: (mparamToks params ++ "(" :: (sepNames ports ++ ")" :: ";" ::
+      (items.flatMap SItem.toks ++ "endmodule" :: rest)))) ha hok
     have hem : attrs.isEmpty = false := by cases hma : attrs <;> simp [hma] at ha ⊢
     unfold starToks at hs ⊢
     simp only [hem, Bool.false_eq_true, if_false, List.cons_append, List.append_assoc, List.nil_append, ha] at hs ⊢
@@ -60,11 +208,11 @@ theorem topGo_mod (f : Nat) (attrs : Attrs) (name : String) (ports : List String
     rw [hmod _ attrs]
 
 theorem topGo_workA (f : Nat) (m : WModA) (rest : Toks) (acc : List Module)
-    (h : modOK m.base.attrs m.base.name (m.base.ports.map (·.name)) m.sitems = true) :
+    (h : modOKP m.base.attrs m.base.name m.params (m.base.ports.map (·.name)) m.sitems = true) :
     topGo (f + 2) (tokensOfA m ++ rest) false [] acc =
       topGo (if m.base.attrs = [] then f + 1 else f) rest false [] (acc ++ [m.toModule]) := by
   unfold tokensOfA
-  rw [topGo_mod f _ _ _ _ rest acc h, sitemsA_items]
+  rw [topGo_mod f _ _ _ _ _ rest acc h, sitemsA_items]
   congr 3
   simp [WModA.toModule, Function.comp_def]
 
@@ -120,7 +268,7 @@ theorem anyToksA_keep (M : WAnyA) (h : anyOKA M = true) : (anyToksA M).all keepT
 
 theorem anyToksA_len (M : WAnyA) : 3 ≤ (anyToksA M).length := by
   cases M with
-  | work m => simp [anyToksA, tokensOfA, modToks]; omega
+  | work m => simp [anyToksA, tokensOfA, modToksP]; omega
   | leaf lf => simp [anyToksA, leafToks, leafCore]
 
 /-- **parse_hierA.**  Token level for a hierarchical file with assigns: the REAL `parseV` on the comment lines followed by
